@@ -1,2 +1,143 @@
-/- C04 — property theorems (in progress). -/
-import GB.C04.Spec
+import GB.C04.Proofs
+/-
+  C04 — transcoded requests populate the gRPC message per the http.proto binding rules.
+
+  The theorems are about `GB.C04.transcode` (GB/C04/Model.lean), the executable model of
+  transcoding/http.go transcodeFunc + internal/gwquery, which `./check C04` ties to the real
+  StandardTranscoder by a differential run on schemas built at run time.
+  `transcode sch orc root bd dec rq`:  sch = the target's own descriptors, orc = results of the text
+  parsers that are parameters (float/double/Timestamp/Duration/Struct/Value), root = request message
+  type, bd = binding (body path), dec = what the body codec decoded (parameter, property C09),
+  rq = path parameters and query in the iteration order the Go runtime picked.
+-/
+open GB GB.C04
+
+/-! ## errors: InvalidArgument, or Internal only for a bad binding -/
+
+/-- Every failure of request transcoding is InvalidArgument — except Internal, which is returned only
+    when the binding's body path is not a field path of the request message (independent of the request),
+    and the wrapped io.EOF of a stream whose decoder reported end of input. (`fault` = the model was
+    given a schema with dangling type references or an incomplete oracle table; see `C04_no_fault_…`.) -/
+theorem C04_errors (sch : Schema) (orc : Oracle) (root : MsgDesc) (bd : Binding) (dec : Dec) (rq : Request) (e : Err)
+    (h : transcode sch orc root bd dec rq = .error e) :
+    e = .invalidArgument ∨ (e = .internal ∧ BadBinding sch root bd) ∨ (e = .eof ∧ dec = .eof) ∨ e = .fault := by
+  unfold transcode transcodeWith at h
+  split at h
+  · rename_i e' he
+    simp at h; subst h
+    exact bodyStage_err he
+  · split at h
+    · rename_i e' he
+      simp at h; subst h
+      rcases isParamErr_cases (pathStage_err he) with h1 | h1
+      · exact Or.inl h1
+      · exact Or.inr (Or.inr (Or.inr h1))
+    · split at h
+      · simp at h
+      · rcases isParamErr_cases (queryStage_err h) with h1 | h1
+        · exact Or.inl h1
+        · exact Or.inr (Or.inr (Or.inr h1))
+
+/-- A value that does not parse can only yield InvalidArgument: every error of the path-parameter and
+    query stages is InvalidArgument (or a model-input fault), never Internal. -/
+theorem C04_param_errors_invalidArgument (sch : Schema) (orc : Oracle) (root : MsgDesc) (m : Msg)
+    (fieldPath values : List Bytes) (e : Err)
+    (h : populateFieldValueFromPath sch orc root m fieldPath values = .error e) :
+    e = .invalidArgument ∨ e = .fault :=
+  isParamErr_cases (populate_err h)
+
+/-! ## streams: path and query bindings apply to every message -/
+
+/-- The stream transcoder (with its cached query filter) yields, for every message of the stream,
+    exactly what the unary transcoder yields for that message with the same path parameters and query. -/
+theorem C04_stream (sch : Schema) (orc : Oracle) (root : MsgDesc) (bd : Binding) (rq : Request) (decs : List Dec) :
+    streamTranscode sch orc root bd rq decs = decs.map (fun d => transcode sch orc root bd d rq) :=
+  streamFrom_eq decs none (Or.inl rfl)
+
+/-! ## body "*": the query string is not consulted -/
+
+theorem C04_body_star_ignores_query (sch : Schema) (orc : Oracle) (root : MsgDesc) (dec : Dec)
+    (pp : List (Bytes × Bytes)) (q q' : List (Bytes × List Bytes)) :
+    transcode sch orc root ⟨wildcard⟩ dec ⟨pp, q⟩ = transcode sch orc root ⟨wildcard⟩ dec ⟨pp, q'⟩ := by
+  unfold transcode transcodeWith
+  simp [shouldParseQuery]
+
+/-! ## query parameters of fields bound by the body or a path variable are ignored -/
+
+/-- Removing every query key whose (normalised) field path starts with the body path or with the name
+    of a path variable does not change the result — such keys are never applied. -/
+theorem C04_bound_query_ignored (sch : Schema) (orc : Oracle) (root : MsgDesc) (bd : Binding) (dec : Dec)
+    (pp : List (Bytes × Bytes)) (q : List (Bytes × List Bytes)) :
+    transcode sch orc root bd dec ⟨pp, q.filter (fun kv => !covered sch root (filterSeqs bd pp) kv)⟩
+      = transcode sch orc root bd dec ⟨pp, q⟩ := by
+  unfold transcode transcodeWith
+  simp only
+  split
+  · rfl
+  · split
+    · rfl
+    · split
+      · rfl
+      · exact queryStage_filter q _
+
+/-- what "covered" means: the body path or a path-variable name is a prefix of the key's field path -/
+theorem C04_covered_iff (sch : Schema) (root : MsgDesc) (bd : Binding) (pp : List (Bytes × Bytes)) (kv : Bytes × List Bytes) :
+    covered sch root (filterSeqs bd pp) kv = true ↔
+      ∃ s, (s ∈ (if bd.bodyPath.isEmpty then [] else [splitDot bd.bodyPath]) ∨ ∃ k v, (k, v) ∈ pp ∧ s = splitDot k)
+        ∧ s.isPrefixOf (normalizeFieldPath sch root (splitDot (queryKey kv.1 kv.2).1)) = true := by
+  unfold covered hasCommonPrefix filterSeqs
+  simp only [List.any_eq_true, List.mem_append, List.mem_map]
+  constructor
+  · rintro ⟨s, hs, hp⟩
+    refine ⟨s, ?_, hp⟩
+    rcases hs with hs | ⟨⟨k, v⟩, hkv, rfl⟩
+    · exact Or.inl hs
+    · exact Or.inr ⟨k, v, hkv, rfl⟩
+  · rintro ⟨s, hs, hp⟩
+    refine ⟨s, ?_, hp⟩
+    rcases hs with hs | ⟨k, v, hkv, rfl⟩
+    · exact Or.inl hs
+    · exact Or.inr ⟨(k, v), hkv, rfl⟩
+
+/-! ## the result depends on the target's own descriptors only -/
+
+/-- Enum text is resolved from the field's own enum descriptor: two schemas that agree on that enum
+    parse every text identically, whatever else they (or the process) contain. -/
+theorem C04_enum_by_own_descriptor (sch sch' : Schema) (orc orc' : Oracle) (ref : Name) (text : Bytes)
+    (h : sch.findEnum ref = sch'.findEnum ref) :
+    parseScalar sch orc (.enum ref) text = parseScalar sch' orc' (.enum ref) text := by
+  simp [parseScalar, h]
+
+/-- D4 (negative witness, the code before the fix): grpc-gateway's enum branch consults a process-global
+    registry; with the registry of the real bridge (no target types) EVERY enum text is rejected … -/
+theorem C04_gateway_enum_lookup_fails (ref : Name) (text : Bytes) :
+    parseEnumViaRegistry [] ref text = .error .invalidArgument := by
+  simp [parseEnumViaRegistry]
+
+/-- … whereas the target's descriptor accepts it (enum E { A = 0; B = 1 }, text "B" ↦ 1), and a registry
+    that holds a different enum under the same name changes the value: the result depended on what is linked in. -/
+theorem C04_gateway_enum_registry_dependence_fails :
+    parseScalar exEnumSchema exNoOracle (.enum [69]) [66] = .ok (.int 1)
+    ∧ parseEnumViaRegistry [exEnum] [69] [66] = .ok (.int 1)
+    ∧ ¬ (parseEnumViaRegistry [exDecoy] [69] [66] = parseScalar exEnumSchema exNoOracle (.enum [69]) [66]) := by
+  decide
+
+/-! ## non-vacuity -/
+
+/-- a concrete request: message M { int32 a = 1; string b = 2; }, body "*" decoded to {b: "x"},
+    path variable a=7, query b=y (ignored because the body is "*") ⟹ {a: 7, b: "x"} -/
+example :
+    transcode exSchema exNoOracle exRoot ⟨wildcard⟩ (.ok [([[98]], .single (.bytes [120]))]) ⟨[([97], [55])], [([98], [[121]])]⟩
+      = .ok [([[97]], .single (.int 7)), ([[98]], .single (.bytes [120]))] := by
+  decide
+
+/-- … and with an ill-typed path variable the same request is InvalidArgument -/
+example :
+    transcode exSchema exNoOracle exRoot ⟨wildcard⟩ .none ⟨[([97], [120])], []⟩ = .error .invalidArgument := by
+  decide
+
+/-- a bad binding (body path names no field) is Internal -/
+example :
+    transcode exSchema exNoOracle exRoot ⟨[122]⟩ .none ⟨[], []⟩ = .error .internal
+    ∧ BadBinding exSchema exRoot ⟨[122]⟩ := by
+  decide
